@@ -269,3 +269,7 @@ Proof.
 Qed.
 
 End OnLog.
+
+Print Assumptions reader_open_paginate.
+Print Assumptions laid_reads_back.
+Print Assumptions reads_back_of_spec.
